@@ -22,6 +22,18 @@ CLAIMS = {
         "Trusts numpy copy/view semantics as tabulated in sa/fresh.py; object-dtype blobs and the documented copy=False contract are outside.",
         "DESIGN.md section 3 (C17)",
     ),
+    "C09": (
+        "RNG effect analysis: enumeration of all seeding/draw sites, interprocedural provenance (constant propagation through parameters, attributes, dataclass fields) of every seed argument, CFG must-pass-through of the user-seed call before the sampling loop",
+        "Static decision over all call chains: the configured random_state reaches a seeding call passed before the first draw of a fresh run; no seeding call can receive a literal; inside the iteration pipeline no seeding call receives any value; no foreign entropy source.",
+        "Exact because all randomness goes through numpy.random module functions (census in evidence); assumes deterministic user callables; floating-point bit-identity across BLAS builds not decided.",
+        "DESIGN.md section 3 (C09)",
+    ),
+    "C07": (
+        "record-coherence analysis: discovery of record-move sites by (index name, reaching definition), field tagging by state keys/role calls, backward slices for the u->x->(logl,blobs) derivation chain, dominance of the bounds predicate over every returned proposal, tuple-position agreement",
+        "Static decision over all paths that every site moving particle rows moves u, x, logl and blobs with one index and matching fields, that stored x/logl/blobs derive from the stored u, that only boundary-mapped and bounds-checked proposals reach u, and that the commit covers every record key.",
+        "Field identity derived from state keys, role calls and names; user callables deterministic; object-dtype blobs share user objects by design.",
+        "DESIGN.md section 3 (C07)",
+    ),
 }
 
 NOT_APPLICABLE = {
